@@ -12,7 +12,7 @@
    float conversion+printing) are universally quantified: nothing about Python's
    re or float is assumed.  The int filter is concrete (lib/PyIntDec.v). *)
 From Verif Require Import lib.Base lib.Str lib.PyIntDec gen.Gen model.RouteSpec model.RouteUrl
-     proofs.C19_spec proofs.C19_pins proofs.C19_shape proofs.C19_identity proofs.C19_int proofs.C19_witness.
+     proofs.C19_spec proofs.C19_pins proofs.C19_shape proofs.C19_identity proofs.C19_int proofs.C19_witness proofs.C19_calls.
 Local Open Scope N_scope.
 
 (* ------------------------------------------------------------------ *)
@@ -227,3 +227,22 @@ Theorem C19_F19path_value_alone_refuted :
     validate k_path path_rx id_fconv 0%nat (PStr [97; 47; 98]) [] = Some UAssertionError.
 Proof. exact path_lookahead_witness. Qed.
 Print Assumptions C19_F19path_value_alone_refuted.
+
+(* ------------------------------------------------------------------ *)
+(* several Route objects in one process, repeated url() calls on one Route:
+   the model of Route.url is a function of the rule and the arguments, so in a
+   sequence of calls the i-th observation depends on the i-th call only (the
+   correspondence runs such sequences against shared Route objects, one
+   router holding several rules, and a fresh-process baseline) *)
+Theorem C19_calls_independent :
+  forall (calls : list (list Z)) (i : nat),
+    nth_error (url_calls calls) i = option_map corr_C19_one (nth_error calls i).
+Proof. exact calls_independent_lemma. Qed.
+Print Assumptions C19_calls_independent.
+
+(* and the correspondence entry point in its several-calls mode is url_calls *)
+Theorem C19_corr_calls_is_url_calls :
+  forall calls : list (list Z),
+    corr_C19 ((-2)%Z :: enc_list enc_zlist calls) = enc_list enc_zlist (url_calls calls).
+Proof. exact corr_multi_lemma. Qed.
+Print Assumptions C19_corr_calls_is_url_calls.
